@@ -77,3 +77,64 @@ package tabular
 //@   assigns nothing
 //@   ensures [nil-when-empty] (ec == nil || len(ec.errors_) == 0) ==> result == nil
 //@   ensures [the-list] ec != nil && len(ec.errors_) > 0 ==> result == ec.errors_
+
+//@ -- ---------------------------------------------------------------------
+//@ -- cells (C01, C18)
+//@ -- ---------------------------------------------------------------------
+
+//@ -- text(x, w): the documented text form of an item, in the precedence the documentation gives
+//@ spec text(x Iface, w int) Str = x == nil ? "" : dyn(x) == type[Cell] ? x.(Cell).str : dyn(x) == type[string] ? x.(string) : dyn(x) == type[rune] ? runeStr(x.(rune)) : impl(dyn(x), Stringer) ? m_String(x, w) : impl(dyn(x), GoStringer) ? m_GoString(x, w) : impl(dyn(x), error) ? m_Error(x, w) : fmtv(x, w)
+
+//@ -- cellOK: the cell type invariant established by NewCell/Update (N6)
+//@ pred cellValOK(c Cell) = (c.empty <==> len(c.str) == 0)
+
+//@ func (*Cell).Update
+//@   tags C01,C18,C09
+//@   requires c != nil
+//@   requires [nested-cell-ok] dyn(c.raw) == type[Cell] ==> cellValOK(c.raw.(Cell))
+//@   assigns c.empty, c.mustCalc, c.str, c.width, c.height
+//@   ensures [text] c.str == text(c.raw, world) @C01
+//@   ensures [empty-iff] c.empty <==> len(c.str) == 0 @C01
+//@   ensures [raw-unchanged] c.raw == old(c.raw) @C01
+//@   ensures [not-stale] !c.mustCalc @C01
+//@   ensures [override-height] impl(dyn(c.raw), Heighter) && dyn(c.raw) != type[Cell] ==> c.height == m_Height(c.raw, world) @C18,C04
+//@   ensures [override-width] impl(dyn(c.raw), TerminalCellWidther) && dyn(c.raw) != type[Cell] ==> c.width == m_Width(c.raw, world) @C18,C04
+//@   ensures [height-is-lines] !impl(dyn(c.raw), Heighter) && dyn(c.raw) != type[Cell] ==> c.height == nlines(c.str) @C18
+//@   ensures [width-upper] !impl(dyn(c.raw), TerminalCellWidther) && dyn(c.raw) != type[Cell] ==> forall i int :: {line(c.str, i)} 0 <= i && i < nlines(c.str) ==> c.width >= W(line(c.str, i)) @C18
+//@   ensures [width-attained] !impl(dyn(c.raw), TerminalCellWidther) && dyn(c.raw) != type[Cell] && nlines(c.str) > 0 ==> exists i int :: 0 <= i && i < nlines(c.str) && c.width == W(line(c.str, i)) @C18
+//@   ensures [width-none] !impl(dyn(c.raw), TerminalCellWidther) && dyn(c.raw) != type[Cell] && nlines(c.str) == 0 ==> c.width == 0 @C18
+//@   ensures [nested] dyn(c.raw) == type[Cell] ==> c.width == c.raw.(Cell).width && c.height == c.raw.(Cell).height @C18
+
+//@ func NewCell
+//@   tags C01,C18,C09
+//@   requires [nested-cell-ok] dyn(object) == type[Cell] ==> cellValOK(object.(Cell))
+//@   assigns nothing
+//@   ensures [item] result.raw == object @C01
+//@   ensures [text] result.str == text(object, world) @C01
+//@   ensures [ok] cellValOK(result) && !result.mustCalc @C01
+//@   ensures [detached] result.inRow == nil && result.columnNum == 0 && result.properties == nil
+//@   ensures [height-is-lines] !impl(dyn(object), Heighter) && dyn(object) != type[Cell] ==> result.height == nlines(result.str) @C18
+
+//@ func (Cell).Item
+//@   tags C01
+//@   assigns nothing
+//@   ensures result == c.raw
+
+//@ func (Cell).String
+//@   tags C01,C09
+//@   requires [nested-cell-ok] c.mustCalc && dyn(c.raw) == type[Cell] ==> cellValOK(c.raw.(Cell))
+//@   assigns nothing
+//@   ensures [cached] !c.mustCalc ==> result == c.str
+//@   ensures [recalc] c.mustCalc ==> result == text(c.raw, world)
+
+//@ func (*Cell).Empty
+//@   tags C01,C09
+//@   assigns nothing
+//@   ensures result <==> (c == nil || c.empty)
+
+//@ func (*Cell).updateCache
+//@   tags C01,C09
+//@   requires c != nil
+//@   requires [nested-cell-ok] dyn(c.raw) == type[Cell] ==> cellValOK(c.raw.(Cell))
+//@   assigns c.empty, c.mustCalc, c.str, c.width, c.height
+//@   ensures c.str == text(c.raw, world) && !c.mustCalc && c.raw == old(c.raw) && (c.empty <==> len(c.str) == 0)
